@@ -199,6 +199,15 @@ pub fn gen_selections(rng: &mut Rng, text: &str, root: &LuaSyntaxNode, max: usiz
                 let le = text[b..].find('\n').map(|p| b + p + 1).unwrap_or(len);
                 (ls, le, "whole-lines")
             }
+            12 if toks.iter().any(|t| t.kind == LK::LongStr || (t.kind == LK::Comment && t.text.contains('\n'))) => {
+                // inside a long string or a multi-line comment (the re-indentation hazard)
+                let cands: Vec<&fo::LTok> = toks.iter().filter(|t| t.kind == LK::LongStr || (t.kind == LK::Comment && t.text.contains('\n'))).collect();
+                let t = cands[rng.below(cands.len())];
+                let l = t.text.len();
+                let a = snap(t.start + rng.below(l));
+                let b = snap(t.start + rng.range(0, l));
+                (a.min(b), a.max(b), if t.kind == LK::LongStr { "inside-long-string" } else { "inside-comment" })
+            }
             _ => {
                 let a = snap(rng.below(len + 1));
                 let b = snap(rng.below(len + 1));
